@@ -152,6 +152,39 @@ func checkC18(c *Ctx, r *Report) {
 					}
 				}
 			}
+			// a deferred literal: what it does with the body inside counts (it may capture `resp`, not the body)
+			if mc, ok := cc.Value.(*ssa.MakeClosure); ok {
+				if lit, ok := mc.Fn.(*ssa.Function); ok {
+					onlyClose, any := true, false
+					eachInstr(lit, func(li ssa.Instruction) {
+						lc := getCall(li)
+						if lc == nil {
+							return
+						}
+						largs := lc.Args
+						if lc.IsInvoke() {
+							largs = append([]ssa.Value{lc.Value}, largs...)
+						}
+						for _, a := range largs {
+							if b, _ := bodySource(a, 5); b {
+								any = true
+								if !(lc.IsInvoke() && lc.Method.Name() == "Close") {
+									onlyClose = false
+								}
+							}
+						}
+					})
+					if any {
+						key := fname(af) + ":defer-on-body"
+						if onlyClose {
+							r.OK("C18-R7", key, in.Pos(), "the deferred literal only closes the upstream body")
+						} else {
+							r.Bad("C18-R7", key, in.Pos(), "a deferred function reads the upstream response body before closing it: reading a stalled body in a defer blocks the request after its read deadline fired")
+						}
+						return
+					}
+				}
+			}
 			if !touches {
 				return
 			}
